@@ -586,7 +586,7 @@ def ensure_shim():
             or os.path.getmtime(SHIM) < os.path.getmtime(src)):
         os.makedirs(BUILD, exist_ok=True)
         tmp = SHIM + f".{os.getpid()}.tmp"
-        subprocess.run(["gcc", "-O2", "-shared", "-fPIC", "-o", tmp, src,
+        subprocess.run(["gcc", "-O2", "-shared", "-fPIC", "-w", "-o", tmp, src,
                         "-ldl", "-lpthread"], check=True)
         os.replace(tmp, SHIM)
     return SHIM
